@@ -2,7 +2,7 @@
 from analysis.engine import AnchorMissing
 from analysis import cfg
 from analysis.sym import sym, show_in, nosite, peel, core, walk, ret_values, args_of, guards_at, atoms_at, \
-    variant_facts_at, cmp_facts_at
+    variant_facts_at, cmp_facts_at, variant_edges
 from analysis.pat import match, Call, Cap, ANY, Pred, Const, has, chain_names
 from rules.common import closure_of
 
@@ -17,13 +17,33 @@ class Worker:
 def worker(ctx):
     """the closure passed to Builder::spawn inside Pipe::new, with its protocol sites resolved by role"""
     new = ctx.body(PIPE_NEW)
-    sp = [t for t in new.calls(r'thread::Builder::spawn$|thread::spawn$|Builder::spawn_scoped$')]
-    if len(sp) != 1:
-        raise AnchorMissing('exactly one thread spawn in Pipe::new (found %d)' % len(sp))
-    clo_tree = sym(new, sp[0].args[-1])
+    from rules.common import closures_in
+    SPAWN = r'thread::Builder::spawn$|thread::spawn$|Builder::spawn_scoped$'
+    sites = [(new, t) for t in new.calls(SPAWN)]
+    for c in closures_in(ctx, new):
+        sites += [(c, t) for t in c.calls(SPAWN)]
+    if len(sites) != 1:
+        raise AnchorMissing('exactly one thread spawn in Pipe::new (found %d)' % len(sites))
+    sbody, sterm = sites[0]
+    clo_tree = sym(sbody, sterm.args[-1])
     w = Worker()
     w.new = new
-    w.spawn = sp[0]
+    w.spawn_body = sbody
+    w.spawn_term = sterm
+    # the site in Pipe::new itself: the spawn call, or the call that receives the closure containing the spawn
+    # (`(0..n).for_each(|thread| { .. spawn .. })`)
+    w.spawn = sterm
+    w.spawn_via = None
+    if sbody is not new:
+        top = sbody
+        while top.parent != new.path and ctx.facts.by_path.get(top.parent):
+            top = ctx.facts.by_path[top.parent][0]
+        recv = [t for t in new.terms('call') if any(isinstance(x, tuple) and x and x[0] == 'agg' and x[1] == 'closure' and x[2] == top.path
+                                                      for a in t.args for x in walk(sym(new, a)))]
+        if len(recv) != 1:
+            raise AnchorMissing('the call in Pipe::new that runs the spawning closure')
+        w.spawn = recv[0]
+        w.spawn_via = recv[0]
     w.body = closure_of(ctx, clo_tree)
     w.captures = clo_tree[3]
     b = w.body
@@ -47,6 +67,8 @@ def worker(ctx):
     if lp is None:
         raise AnchorMissing('worker: the ticket pull is not inside a loop')
     w.loop = lp
+    some = variant_edges(b, sym(b, w.ticket.dest), 'Some')
+    w.some_target = some[0][1] if len(some) == 1 else None
     return w
 
 
@@ -104,8 +126,7 @@ def worker_exit_check(ctx, b, what):
                     '%s: %s -- a worker that stops for any other reason leaves the remaining lines uncounted once all workers are gone'
                     % (what, why), b.blocks[u].term.span)
     # every pulled item is sent: from the Some arm every path to the back edge passes the send
-    sw = b.blocks[pull.target].term if pull.target is not None else None
-    some = [tg for (val, tg) in sw.arms if val == 1] if sw is not None and sw.kind == 'switch' else []
+    some = [e[1] for e in variant_edges(b, sym(b, pull.dest), 'Some')]
     if some:
         ok = all(cfg.must_pass(b, some[0], l, via_blocks=[send.bb]) for l in loop.latches)
         ctx.require(ok, b, 'worker-sends-every-item|' + what.split()[0], '%s: every pulled line reaches the send before the next pull' % what,
